@@ -228,6 +228,20 @@ def main(tier, seed):
         "samples": [{"case": c, "impl": i, "model": m} for c, i, m in list(zip(cases, impl, model))[:2]],
         "model_impl_disagreements": len(diffs),
     })
+    # free-running race search below the granularity of the scheduler: the last two handles dropped by two threads at the same instant
+    rounds = 4000 if tier == "quick" else 40000
+    try:
+        sout = run_batch(vlib.HARNESS, "cpingstress", [str(rounds)], timeout=600)
+    except Exception as e:      # noqa
+        sout = ["TIMEOUT %s" % e]
+    chk.cov["concurrent_last_drops_race_search"] = {"rounds": rounds, "result": sout[0][:200] if sout else "no output",
+                                                     "note": "a search on free-running threads (no scheduler, no model): it can only find a failing schedule, never show there is none"}
+    if not sout or sout[0].strip() != "rounds=%d lost_ping=- extra_callback=- not_removed=-" % rounds:
+        o = sout[0] if sout else ""
+        what = ("every handle was dropped (two threads, at the same instant) but the source never removed itself from the loop" if "not_removed=-" not in o and "not_removed=" in o
+                else "the ping that had returned before the handles were dropped was never delivered" if "lost_ping=-" not in o and "lost_ping=" in o
+                else "the callback ran without a ping" if "extra_callback=-" not in o and "extra_callback=" in o else "no result")
+        chk.violation("oracle-stress", "C03 violated on the real code: %s\nstress case: %d\n# result: %s" % (what, rounds, o[:300]))
     if bad:
         c, i, fs = min(bad, key=lambda x: len(x[0]))
         chk.violation("oracle", "C03 violated on the real code: %s\n%s\n# executed steps (thread:yield id) and observations: %s\n(%d failing schedules)" % (fs[0], c, i, len(bad)))
@@ -254,6 +268,12 @@ def main(tier, seed):
 
 
 def replay(path):
+    if "stress case:" in open(path).read():
+        rounds = [l.split(":", 1)[1].strip() for l in open(path) if l.startswith("stress case:")][0]
+        vlib.build_harness()
+        out = run_batch(vlib.HARNESS, "cpingstress", [rounds], timeout=600)
+        print(out[0] if out else "no output")
+        return 0 if out and out[0].strip() == "rounds=%s lost_ping=- extra_callback=- not_removed=-" % rounds else 1
     if "=== " in open(path).read():
         import oracles
         import seqcheck
